@@ -4,6 +4,19 @@ verus! {
 pub uninterp spec fn datacap_mint_method_spec() -> u64;
 #[verifier::external_body]
 pub fn datacap_mint_method() -> (r: u64) ensures r == datacap_mint_method_spec() { unimplemented!() }
+pub uninterp spec fn datacap_burn_method_spec() -> u64;
+#[verifier::external_body]
+pub fn datacap_burn_method() -> (r: u64) ensures r == datacap_burn_method_spec() { unimplemented!() }
+pub uninterp spec fn datacap_destroy_method_spec() -> u64;
+#[verifier::external_body]
+pub fn datacap_destroy_method() -> (r: u64) ensures r == datacap_destroy_method_spec() { unimplemented!() }
+pub uninterp spec fn datacap_transfer_method_spec() -> u64;
+#[verifier::external_body]
+pub fn datacap_transfer_method() -> (r: u64) ensures r == datacap_transfer_method_spec() { unimplemented!() }
+/// frc46_token parameter types (external crate): plain records
+pub struct TransferParams { pub to: Address, pub amount: TokenAmount, pub operator_data: RawBytes }
+pub struct BurnParams { pub amount: TokenAmount }
+impl RawBytes { pub fn default() -> (r: RawBytes) { RawBytes { h: 0 } } }
 pub mod emit {
     use super::*;
     #[verifier::external_body]
